@@ -525,6 +525,18 @@ def _run_pairs(rep, P, scs, dist, label, reported, limit=3):
             dist["known_finding_differences"] = dist.get("known_finding_differences", 0) + 1
             rep.violation("listed finding %s" % sig, {"suite": "twin-diff", "scenario": sc}, signature=sig)
         elif d:
+            # the asyncio side ran in a BATCH (one event loop, one scripted clock for all scenarios of the batch): a difference
+            # is only a difference of the twins when it is still there with the pair run on its own (scenarios are
+            # deterministic; what a neighbour in the batch did to the shared clock is the harness's doing, not scrapli's)
+            try:
+                a_i, b_i = P.run_sync(sc), P.run_async_batch([sc])[0]
+                d_i = P.diff_obs(a_i, b_i)
+            except Exception:  # noqa
+                a_i, b_i, d_i = a, b, d
+            if not d_i:
+                dist["batch_only_differences"] = dist.get("batch_only_differences", 0) + 1
+                continue
+            a, b, d = a_i, b_i, d_i
             nfail += 1
             if reported[0] < limit:
                 reported[0] += 1
